@@ -51,8 +51,10 @@ def load_library():
     lib.SignatureError = c.SignatureError
     lib.MetadataVerificationError = c.MetadataVerificationError
     lib.UnknownRoleError = c.UnknownRoleError
-    lib.modules = [getattr(lib, m) for m in ("common", "signing", "authentication", "root_signing",
-                                              "metadata_construction", "cli")]
+    # every module of the package that got imported (robust against code moving between modules or new modules)
+    lib.modules = [m for n, m in sorted(sys.modules.items())
+                   if n.startswith("conda_content_trust.") and m is not None and getattr(m, "__file__", None)
+                   and os.path.realpath(m.__file__).startswith(lib.dir)]
     _snapshot_state(lib)
     _LIB = lib
     return lib
@@ -115,9 +117,54 @@ def reset_library_state():
             if isinstance(v, types.FunctionType) and v.__module__ == mod.__name__ and v.__dict__:
                 for a in [a for a in v.__dict__ if a != "__wrapped__"]:
                     del v.__dict__[a]
+    # seams injected by the running world stay in place
+    for (mname, name), (mod, value) in _INJECTED.items():
+        setattr(mod, name, value)
 
 
 # ---------------------------------------------------------------------------------- stdout
+
+
+class FaultySink(io.BufferedIOBase):
+    """Byte sink behind the simulated stdout.  The n-th write can fail the way a real stdout does: ENOSPC (full
+    device), EPIPE (reader gone), EIO, or ValueError (closed file)."""
+
+    def __init__(self):
+        self.data = bytearray()
+        self.writes = 0
+        self.fail_at = None
+        self.fail_kind = "ENOSPC"
+        self.fired = 0
+
+    def writable(self):
+        return True
+
+    def write(self, b):
+        self.writes += 1
+        if self.fail_at is not None and self.writes >= self.fail_at:
+            self.fired += 1
+            if self.fail_kind == "closed":
+                raise ValueError("I/O operation on closed file.")
+            code = {"ENOSPC": errno.ENOSPC, "EPIPE": errno.EPIPE, "EIO": errno.EIO}[self.fail_kind]
+            if self.fail_kind == "EPIPE":
+                raise BrokenPipeError(code, os.strerror(code))
+            raise OSError(code, os.strerror(code))
+        if len(self.data) < 1 << 20:
+            self.data += bytes(b)
+        return len(b)
+
+    def flush(self):
+        pass
+
+    def getvalue(self):
+        return bytes(self.data)
+
+    def seek(self, *a):
+        return 0
+
+    def truncate(self, *a):
+        del self.data[:]
+        return 0
 
 
 class SimStdout:
@@ -126,9 +173,20 @@ class SimStdout:
 
     def __init__(self, encoding="utf-8"):
         self.encoding = encoding
-        self.sink = io.BytesIO()
+        self.sink = FaultySink()
         self.stream = io.TextIOWrapper(self.sink, encoding=encoding, errors="strict", write_through=True)
         self._saved = None
+
+    def arm(self, nth_write, kind):
+        self.sink.fail_at = self.sink.writes + nth_write
+        self.sink.fail_kind = kind
+        self.sink.fired = 0
+
+    def disarm(self):
+        fired = self.sink.fired
+        self.sink.fail_at = None
+        self.sink.fired = 0
+        return fired
 
     def __enter__(self):
         self._saved = sys.stdout
@@ -145,7 +203,6 @@ class SimStdout:
         return False
 
     def reset(self):
-        self.sink.seek(0)
         self.sink.truncate(0)
 
     def text(self):
@@ -197,11 +254,12 @@ def exc_site(lib, exc):
 class LibCalls:
     """All calls into validators/verifiers made by any simulated party go through call()."""
 
-    def __init__(self, run, lib, encoding="utf-8", monitor_args=True):
+    def __init__(self, run, lib, encoding="utf-8", monitor_args=True, werror=False):
         self.run = run
         self.lib = lib
         self.out = SimStdout(encoding)
         self.monitor_args = monitor_args
+        self.werror = werror          # process configuration: warnings escalated to errors (python -W error)
         self.table = {}
         for mod in (lib.authentication, lib.common, lib.signing, lib.metadata_construction,
                     lib.root_signing, lib.cli):
@@ -219,7 +277,10 @@ class LibCalls:
         run.libcalls += 1
         f = self.fn(name)
         before = snapshot((args, kw)) if self.monitor_args else None
-        with self.out:
+        import warnings as _w
+        with self.out, _w.catch_warnings():
+            if self.werror:
+                _w.simplefilter("error")
             try:
                 v = f(*args, **kw)
                 o = Outcome(True, v)
@@ -242,12 +303,52 @@ class LibCalls:
         run.ev("call", name, o.cls)
         return o
 
+    def faulted(self, name, line_k, exc, *args, **kw):
+        """Call with an exception injected at the k-th line event executed inside library frames (if the call gets
+        that far).  Returns (outcome, fired)."""
+        tr = LineTracer(self.lib.dir)
+        tr.inject_at = line_k
+        tr.inject_exc = exc
+        self.run.libcalls += 1
+        f = self.fn(name)
+        with self.out:
+            try:
+                with tr:
+                    v = f(*args, **kw)
+                o = Outcome(True, v)
+            except BaseException as e:  # noqa: BLE001
+                if isinstance(e, (SystemExit, GeneratorExit)):
+                    raise
+                o = Outcome(False, exc=e)
+        return o, tr.fired
+
+    def cli_main(self, argv):
+        """Run the command line tool in-process through its public entry point cli(argv); returns an Outcome whose
+        value is the exit status (SystemExit is translated)."""
+        self.run.libcalls += 1
+        import warnings as _w
+        with self.out, _w.catch_warnings():
+            if self.werror:
+                _w.simplefilter("error")
+            try:
+                return Outcome(True, self.lib.cli.cli(list(argv)))
+            except SystemExit as e:
+                code = e.code if isinstance(e.code, int) else (0 if e.code is None else 1)
+                return Outcome(True, code) if code == 0 else Outcome(False, exc=RuntimeError("SystemExit(%r)" % (e.code,)))
+            except BaseException as e:  # noqa: BLE001
+                if isinstance(e, GeneratorExit):
+                    raise
+                return Outcome(False, exc=e)
+
     def raw(self, name, *args, **kw):
         """Call a non-verifier (signer, builder, file helper) under simulated stdout; exceptions are
         returned, not judged."""
         self.run.libcalls += 1
         f = self.fn(name)
-        with self.out:
+        import warnings as _w
+        with self.out, _w.catch_warnings():
+            if self.werror:
+                _w.simplefilter("error")
             try:
                 return Outcome(True, f(*args, **kw))
             except BaseException as e:  # noqa: BLE001
@@ -259,6 +360,9 @@ class LibCalls:
 # ---------------------------------------------------------------------------------- patcher
 
 
+_INJECTED = {}     # (module name, attribute) -> value currently injected by a Patcher (survives reset_library_state)
+
+
 class Patcher:
     def __init__(self):
         self.saved = []
@@ -268,9 +372,11 @@ class Patcher:
         old = mod.__dict__.get(name, missing)
         self.saved.append((mod, name, old, missing))
         setattr(mod, name, value)
+        _INJECTED[(mod.__name__, name)] = (mod, value)
 
     def restore(self):
         for mod, name, old, missing in reversed(self.saved):
+            _INJECTED.pop((mod.__name__, name), None)
             if old is missing:
                 try:
                     delattr(mod, name)
@@ -301,15 +407,26 @@ def oserror(code, path=None):
 
 
 class SimFile:
-    def __init__(self, fs, path, mode, data):
+    """File object of the simulated file system.  Modes r / w / a with optional + and b; seek / tell / truncate;
+    `raw` (buffering=0) files see partial writes the way an unbuffered POSIX write does (a short count is
+    returned), buffered files retry transparently like io.BufferedWriter."""
+
+    def __init__(self, fs, path, mode, data, raw=False):
         self.fs, self.path, self.mode = fs, path, mode
         self.binary = "b" in mode
-        self.writing = "w" in mode
-        self.buf = bytearray() if self.writing else None
-        self.data = data
-        self.pos = 0
+        self.can_read = "r" in mode or "+" in mode
+        self.writing = "w" in mode or "a" in mode or "+" in mode
+        self.raw = raw
+        self.content = bytearray(data or b"")
+        self.pos = len(self.content) if "a" in mode else 0
         self.closed = False
         self.name = path
+        self.dirty = "w" in mode
+
+    # kept for code that looked at .buf (content written so far)
+    @property
+    def buf(self):
+        return self.content
 
     def __enter__(self):
         return self
@@ -319,22 +436,56 @@ class SimFile:
         return False
 
     def readable(self):
-        return not self.writing
+        return self.can_read
 
     def writable(self):
         return self.writing
 
+    def seekable(self):
+        return True
+
+    def fileno(self):
+        raise io.UnsupportedOperation("simulated file has no descriptor")
+
+    def tell(self):
+        return self.pos
+
+    def seek(self, off, whence=0):
+        base = {0: 0, 1: self.pos, 2: len(self.content)}[whence]
+        self.pos = max(0, base + off)
+        return self.pos
+
+    def truncate(self, size=None):
+        if not self.writing:
+            raise io.UnsupportedOperation("not writable")
+        size = self.pos if size is None else size
+        del self.content[size:]
+        self.dirty = True
+        self.fs.volatile[self.path] = bytes(self.content)
+        return size
+
     def read(self, n=-1):
         self.fs._op("read", self.path)
-        if self.writing:
+        if not self.can_read:
             raise io.UnsupportedOperation("not readable")
-        d = self.data[self.pos:] if n is None or n < 0 else self.data[self.pos:self.pos + n]
+        d = self.content[self.pos:] if n is None or n < 0 else self.content[self.pos:self.pos + n]
         short = self.fs._short("read", self.path)
         if short is not None and len(d) > 0:
             d = d[:max(0, min(len(d), short))]
         self.pos += len(d)
         d = bytes(d)
         return d if self.binary else d.decode("utf-8")
+
+    def readall(self):
+        return self.read()
+
+    def _put(self, b):
+        end = self.pos + len(b)
+        if self.pos > len(self.content):
+            self.content.extend(b"\x00" * (self.pos - len(self.content)))
+        self.content[self.pos:end] = b
+        self.pos = end
+        self.dirty = True
 
     def write(self, b):
         self.fs._op("write", self.path)
@@ -345,18 +496,29 @@ class SimFile:
         b = bytes(b)
         self.fs.events.append(("write", self.path, len(b)))
         short = self.fs._short("write", self.path)
+        partial = self.fs._partial()
+        if partial is not None and len(b) > 1:
+            k = max(1, min(len(b) - 1, partial))
+            if self.raw:
+                # an unbuffered write may accept fewer bytes than offered and says so in its return value
+                self._put(b[:k])
+                self.fs.volatile[self.path] = bytes(self.content)
+                self.fs.written[self.path] = self.fs.written.get(self.path, b"") + b[:k]
+                return k
+            # buffered writer: retries until everything is written
         if short is not None and len(b) > 0:
             k = max(0, min(len(b) - 1, short))
-            self.buf += b[:k]
-            self.fs.volatile[self.path] = bytes(self.buf)
+            self._put(b[:k])
+            self.fs.volatile[self.path] = bytes(self.content)
             raise oserror("ENOSPC", self.path)
-        self.buf += b
-        self.fs.volatile[self.path] = bytes(self.buf)
+        self._put(b)
+        self.fs.volatile[self.path] = bytes(self.content)
         self.fs.written[self.path] = self.fs.written.get(self.path, b"") + b
         return len(b)
 
     def flush(self):
-        pass
+        if self.writing and self.dirty and self.raw:
+            self.fs.files[self.path] = bytes(self.content)
 
     def close(self):
         if self.closed:
@@ -366,10 +528,11 @@ class SimFile:
             try:
                 self.fs._op("close", self.path)
             finally:
-                # closing makes the buffered content the file's content (still no fsync in the library)
-                self.fs.files[self.path] = bytes(self.buf)
-                self.fs.now += self.fs.tick
-                self.fs.mtime[self.path] = self.fs.now
+                # closing makes the written content the file's content (still no fsync in the library)
+                if self.dirty or self.path not in self.fs.files:
+                    self.fs.files[self.path] = bytes(self.content)
+                    self.fs.now += self.fs.tick
+                    self.fs.mtime[self.path] = self.fs.now
                 self.fs.volatile.pop(self.path, None)
                 self.fs.open_for_write.discard(self.path)
                 self.fs.events.append(("close", self.path))
@@ -396,6 +559,9 @@ class SimFS:
         self.counter = 0
         self.fired = []
         self.short = {}        # op-counter -> short length
+        self.partial = {}      # op-counter -> bytes the "kernel" accepts of that write (no error)
+        self.opens_r = {}      # path -> number of opens for reading
+        self.swap = {}         # path -> (n-th open for reading, content served from then on)
 
     # --- fault plan -------------------------------------------------------------------------
     def _op(self, kind, path):
@@ -415,28 +581,137 @@ class SimFS:
         return self.short.pop(self.counter, None)
 
     # --- the injected `open` ----------------------------------------------------------------
-    def open(self, path, mode="r", *a, **kw):
+    def open(self, path, mode="r", buffering=-1, *a, **kw):
         path = os.fspath(path)
+        if isinstance(path, bytes):
+            path = path.decode("utf-8", "surrogateescape")
         if not isinstance(path, str):
             raise TypeError("SimFS path must be str")
-        if "w" in mode:
+        path = self._norm(path)
+        raw = buffering == 0
+        if any(c in mode for c in "wa+x"):
             self.events.append(("open_w", path))
             self._op("open_w", path)
             if path in self.dirs:
                 raise oserror("EISDIR", path)
+            if "x" in mode and path in self.files:
+                raise FileExistsError(errno.EEXIST, os.strerror(errno.EEXIST), path)
+            if "w" not in mode and "a" not in mode and "x" not in mode and path not in self.files:
+                raise oserror("ENOENT", path)          # r+ on a missing file
             self.pre_open[path] = self.files.get(path)
-            self.files[path] = b""           # truncation is immediately visible
-            self.volatile[path] = b""
             self.open_for_write.add(path)
             self.written[path] = b""
-            return SimFile(self, path, mode, None)
+            if "w" in mode or "x" in mode:
+                self.files[path] = b""       # truncation is immediately visible
+                self.volatile[path] = b""
+                return SimFile(self, path, mode, None, raw)
+            self.volatile[path] = self.files.get(path, b"")
+            return SimFile(self, path, mode, self.files.get(path, b""), raw)
         self.events.append(("open_r", path))
         self._op("open_r", path)
+        self.opens_r[path] = self.opens_r.get(path, 0) + 1
+        sw = self.swap.get(path)
+        if sw and self.opens_r[path] == sw[0]:
+            # another process replaced the file between two opens of the same name
+            self.files[path] = bytes(sw[1])
+            self.now += self.tick
+            self.mtime[path] = self.now
+            if self.run is not None:
+                self.run.fault("file_replaced_between_reads")
         if path in self.dirs:
             raise oserror("EISDIR", path)
         if path not in self.files:
             raise oserror("ENOENT", path)
-        return SimFile(self, path, mode, self.files[path])
+        return SimFile(self, path, mode, self.files[path], raw)
+
+    def _norm(self, p):
+        cwd = os.getcwd()
+        if p.startswith(cwd + os.sep):
+            p = p[len(cwd) + 1:]
+        return p
+
+    def _partial(self):
+        return self.partial.pop(self.counter, None)
+
+    def _simulated(self, p):
+        """Is p a path of the simulated file system (an existing file, or a new name in a directory that holds one)?"""
+        if p in self.files or p in self.dirs:
+            return True
+        d = os.path.dirname(p)
+        return any(os.path.dirname(k) == d for k in self.files) if d else False
+
+    def install_open(self, patcher, lib, roots=()):
+        """`open` in the namespace of every library module goes to the simulated file system; builtins.open / io.open
+        (hence pathlib) are routed there too for paths under the simulated roots, and fall through otherwise."""
+        import builtins
+        import io as _io
+        fs = self
+        fs.roots = set(roots) | {"md", "repo", "keys", "net", "ceremony", "cli", "c0", "c1", "w0", "w1", "w2", "w3"}
+        for mod in lib.modules:
+            patcher.set(mod, "open", fs.open)
+        real_open = builtins.open
+
+        def dispatch(file, *a, **kw):
+            try:
+                p = os.fspath(file)
+            except TypeError:
+                return real_open(file, *a, **kw)
+            if isinstance(p, bytes):
+                p = p.decode("utf-8", "surrogateescape")
+            q = fs._norm(p)
+            if q in fs.files or q.split("/", 1)[0] in fs.roots:
+                return fs.open(q, *a, **kw)
+            return real_open(file, *a, **kw)
+
+        patcher.set(builtins, "open", dispatch)
+        patcher.set(_io, "open", dispatch)
+
+    def install_rename(self, patcher):
+        """os.rename / os.replace / os.remove / os.unlink for simulated files (shutil.move builds on them); a real
+        temporary file renamed onto a simulated name is taken in."""
+        import os as _os
+        fs = self
+        real = {n: getattr(_os, n) for n in ("rename", "replace", "remove", "unlink")}
+
+        def _mv(name):
+            def mv(src, dst, *a, **kw):
+                s, d = fs._norm(_os.fspath(src)), fs._norm(_os.fspath(dst))
+                if s in fs.files:
+                    fs._op("rename", s)
+                    fs.events.append(("rename", s, d))
+                    fs.files[d] = fs.files.pop(s)
+                    fs.now += fs.tick
+                    fs.mtime[d] = fs.mtime.pop(s, fs.now)
+                    return None
+                if fs._simulated(d) and _os.path.lexists(src):
+                    with open(src, "rb") as f:
+                        data = f.read()
+                    real["unlink"](src)
+                    fs._op("rename", d)
+                    fs.events.append(("rename", s, d))
+                    fs.files[d] = data
+                    fs.now += fs.tick
+                    fs.mtime[d] = fs.now
+                    return None
+                return real[name](src, dst, *a, **kw)
+            return mv
+
+        def _rm(name):
+            def rm(p, *a, **kw):
+                q = fs._norm(_os.fspath(p))
+                if q in fs.files:
+                    fs._op("remove", q)
+                    fs.events.append(("remove", q))
+                    del fs.files[q]
+                    fs.mtime.pop(q, None)
+                    return None
+                return real[name](p, *a, **kw)
+            return rm
+
+        patcher.set(_os, "rename", _mv("rename"))
+        patcher.set(_os, "replace", _mv("replace"))
+        patcher.set(_os, "remove", _rm("remove"))
+        patcher.set(_os, "unlink", _rm("unlink"))
 
     # --- harness-side helpers (no fault plan) -----------------------------------------------
     def put(self, path, data):
@@ -544,10 +819,77 @@ def make_clock_class(state):
             return cls.now()
 
     SimDateTime.__name__ = "datetime"
+    # usable both as the class (`from datetime import datetime`) and as the module (`import datetime`)
+    SimDateTime.datetime = SimDateTime
+    SimDateTime.timedelta = _dt.timedelta
+    SimDateTime.timezone = _dt.timezone
+    SimDateTime.date = _dt.date
+    SimDateTime.UTC = _dt.timezone.utc
     return SimDateTime
 
 
+class SimTimeModule:
+    """Stands in for the `time` module inside the library's namespaces: every clock answers simulated time."""
+
+    def __init__(self, state):
+        self._s = state
+        import time as _t
+        self._t = _t
+
+    def time(self):
+        self._s.reads += 1
+        return self._s.now
+
+    def time_ns(self):
+        self._s.reads += 1
+        return int(self._s.now * 1e9)
+
+    def monotonic(self):
+        return self._s.now
+
+    def perf_counter(self):
+        return self._s.now
+
+    def sleep(self, s):
+        self._s.now += max(0.0, float(s))
+
+    def gmtime(self, secs=None):
+        return self._t.gmtime(self._s.now if secs is None else secs)
+
+    def localtime(self, secs=None):
+        return self._t.gmtime((self._s.now if secs is None else secs) + 3600 * self._s.utc_offset_h)
+
+    def strftime(self, fmt, t=None):
+        return self._t.strftime(fmt, self.gmtime() if t is None else t)
+
+    def __getattr__(self, name):
+        return getattr(self._t, name)
+
+
+def install_clock(patcher, lib, state):
+    """The only clocks code inside the library can read are simulated: `datetime` (class) / `time` (module) names in
+    every library module are bound to the simulated versions, whether or not the module uses them today."""
+    cls = make_clock_class(state)
+    tm = SimTimeModule(state)
+    for mod in lib.modules:
+        patcher.set(mod, "datetime", cls)
+        patcher.set(mod, "time", tm)
+    return cls
+
+
 # ---------------------------------------------------------------------------------- tracer tools
+
+
+def _json_codes():
+    import json
+    import json.encoder as je
+    out = set()
+    for f in (json.dumps, json.dump, je.JSONEncoder.encode, je.JSONEncoder.iterencode):
+        out.add(f.__code__)
+    return out
+
+
+_JSON_ENCODE_CODES = _json_codes()
 
 
 class LineTracer:
@@ -581,11 +923,20 @@ class LineTracer:
         if event != "call":
             return None
         code = frame.f_code
+        if code in _JSON_ENCODE_CODES:
+            # serialisation is observed at the standard library's encoder, not by the names the library gives its helpers
+            self.events.append(("call", "json-encode"))
+            return self._json_local
         if not self._inlib(code):
             return None
         if code.co_name in self.watch:
             self.events.append(("call", code.co_name))
         return self._local
+
+    def _json_local(self, frame, event, arg):
+        if event == "return":
+            self.events.append(("return", "json-encode"))
+        return self._json_local
 
     def _local(self, frame, event, arg):
         if event == "line":
